@@ -13,13 +13,15 @@ NOTES = {
     "C01-2": "missed at first (no unsized shape had padding before a middle field): fixed zoo extended by all ordered pairs of prefix alignments in front of a tail, and three-field enum variants",
     "C20-2": "missed at first (no enum had a unit variant in front of the #[default] one): three such shapes added to the fixed zoo",
     "C05-2": "first run was INCONCLUSIVE (harness: extent_of of a generated value that cannot be sealed in a u8 offset); generator fixed, then caught",
+    "C09-3p": "missed at first: every `assert!(!poisoned)` panic was classified as the documented refusal of a poisoned sender; now only cases with a write fault may end in that refusal (false alarm list #8)",
+    "C15-3t": "missed at first: the harness re-validated FlatWrap's bytes before inspecting the wrapper, which hid the inconsistent wrapper; it is now inspected as returned (false alarm list #9)",
     "C10-2": "first run reported through a stale oracle parameter (buffer capacity of the case vs. of the oracle); fixed, then caught as the panic it is",
 }
 
 
 def main():
     rows = []
-    for d in sorted(glob.glob(os.path.join(HERE, "seeded", "*"))):
+    for d in sorted(glob.glob(os.path.join(HERE, "seeded", "C*"))):
         sid = os.path.basename(d)
         meta = json.load(open(os.path.join(d, "meta.json")))
         res = json.load(open(os.path.join(d, "result.json"))) if os.path.exists(os.path.join(d, "result.json")) else []
